@@ -91,11 +91,25 @@ def model_lonlat(W, p):
                       output=dict(filename=str(tmp / "out.nc"), output_period=DTs, instance_variables=ivars))
     cfg["grid"] = dict(module="ladim.ROMS", filename=str(tmp / "grid.nc"))
     cfg["ibm"] = dict()
+    # records may be spread over several files (numrec records each)
+    R = W.idx(W.int("numrec", 0, 2))
+    cfg["output"]["numrec"] = R
     run_main(W, cfg)
-    d = W.nc_read(tmp / "out.nc")
-    V = d["vars"]
-    X, Y, LO, LA = V["X"], V["Y"], V["lon"], V["lat"]
-    W.prove(len(X) == 3 and len(LO) == 3, "output-lonlat", dict(records=len(X)))
+    names = ["out.nc"] if R == 0 else [f"out_{i:03d}.nc" for i in range(-(-3 // R))]
+    X, Y, LO, LA = [], [], [], []
+    shape_ok = True
+    for nm in names:
+        if not W.nc_exists(tmp / nm):
+            shape_ok = False
+            continue
+        V = W.nc_read(tmp / nm)["vars"]
+        ninst = sum(int(c) for c in V["particle_count"] if not W.is_fill(c))
+        # every instance variable of a file has one entry per particle instance of that file
+        shape_ok = shape_ok and all(len(V[v]) == ninst for v in ("X", "Y", "lon", "lat"))
+        X, Y, LO, LA = X + list(V["X"][:ninst]), Y + list(V["Y"][:ninst]), LO + list(V["lon"][:ninst]), LA + list(V["lat"][:ninst])
+    W.prove(shape_ok and len(X) == 3 and len(LO) == 3 and not any(W.is_fill(v) for v in LO + LA), "output-lonlat", dict(records=len(X), numrec=R, files=names))
+    if not (len(X) == 3 and len(LO) == 3) or any(W.is_fill(v) for v in LO + LA + X + Y):
+        return (name, "shape")
     # release: lon/lat interpolated at the start position reproduce the given ones within the tolerance (or the position is exact)
     lonx = _q(W, l0) + _q(W, la) * X[0] + _q(W, lb) * Y[0]
     latx = _q(W, t0) + _q(W, ta) * X[0] + _q(W, tb) * Y[0]
